@@ -16,7 +16,8 @@ def breakers(rng, d):
     cmds = [o for o in objs if o["kind"] == "command"]
     applied = []
     for _ in range(rng.choice([0, 0, 1, 1, 1, 2])):
-        k = rng.choice(["dup_name", "dangling", "enum", "layout", "reset", "collide", "too_big", "no_type", "byte_order", "bool"])
+        k = rng.choice(["dup_name", "dangling", "recursive_ref", "enum", "layout", "reset", "collide", "too_big", "no_type", "byte_order",
+                        "bool"])
         if k == "dup_name" and len(objs) >= 2:
             a, b = rng.sample(objs, 2)
             b["name"] = a["name"]
@@ -28,17 +29,36 @@ def breakers(rng, d):
             else:
                 ov["address_offset"] = 7000
             d["objects"].append(adef.mk_ref("Qx", rng.choice(["Nowhere", "Missing"]), ov))
+        elif k == "recursive_ref":
+            # a block ref inside its own target (D11, rejected by refs_validated since /repo df1ac90): direct, in a sub
+            # block, or through a second block ref
+            bo = lambda off: {"kind": "block", "address_offset": off}
+            how = rng.choice(["direct", "sub_block", "two_cycle"])
+            if how == "direct":
+                new = [adef.mk_block("Qrec", [adef.mk_ref("Qself", "Qrec", bo(7100))], address_offset=7200)]
+            elif how == "sub_block":
+                new = [adef.mk_block("Qrec", [adef.mk_block("Qsub", [adef.mk_ref("Qself", "Qrec", bo(7100))], address_offset=7300)],
+                                     address_offset=7200)]
+            else:
+                new = [adef.mk_block("Qrec", [adef.mk_ref("Qself", "Qtwo", bo(7100))], address_offset=7200),
+                       adef.mk_block("Qtwo", [adef.mk_ref("Qback", "Qrec", bo(7400))], address_offset=7500)]
+            d["objects"].extend(new)
         elif k == "enum" and regs:
             r = rng.choice(regs)
             if r["size_bits"] >= 2:
                 w = rng.choice([1, 2, min(3, r["size_bits"])])
-                how = rng.choice(["high", "nodefault", "twodefault", "empty", "twocatch"])
+                how = rng.choice(["high", "nodefault", "twodefault", "empty", "twocatch", "low", "reprlow", "reprhigh"])
+                if how == "reprhigh":      # D17: needs an int field as wide as its carrier
+                    w = 8 if r["size_bits"] >= 8 else w
                 vs = {"high": [adef.mk_variant("Va"), adef.mk_variant("Vb", 1 << w)],
+                      "low": [adef.mk_variant("Va", -1), adef.mk_variant("Vb", "default")],            # D16 (uint field)
+                      "reprlow": [adef.mk_variant("Va", -129), adef.mk_variant("Vb", "default")],      # D17 (int field, i8)
+                      "reprhigh": [adef.mk_variant("Va", 127), adef.mk_variant("Vb"), adef.mk_variant("Vc", "catch_all")],
                       "nodefault": [adef.mk_variant("Va")] if w > 0 else [],
                       "twodefault": [adef.mk_variant("Va", "default"), adef.mk_variant("Vb", "default")],
                       "twocatch": [adef.mk_variant("Va", "catch_all"), adef.mk_variant("Vb", "catch_all")],
                       "empty": []}[how]
-                r["fields"] = [adef.mk_field("broken", "uint", 0, w, conv=adef.mk_enum("EnBroken" + r["name"], vs, how == "high"))]
+                r["fields"] = [adef.mk_field("broken", "int" if how.startswith("repr") else "uint", 0, w, conv=adef.mk_enum("EnBroken" + r["name"], vs, how == "high"))]
                 r["allow_bit_overlap"] = None
         elif k == "layout" and regs:
             r = rng.choice(regs)
@@ -146,12 +166,12 @@ def run_pipeline_phase(ctx, exe, n, seed_offset):
             diffs.append((c, impl, m, tags[cid]))
     return {"evaluations": len(cases), "histogram": dict(hist), "diffs": diffs,
             "rule": "gendev devices (cfg-free) with 0..2 injected defects from different passes' territories (duplicate name, dangling "
-                    "ref, bad enum, bad layout, bad reset value, address collision, address out of type, missing address type / byte "
+                    "ref, block ref inside its own target, bad enum, bad layout, bad reset value, address collision, address out of type, missing address type / byte "
                     "order, wide bool) through the real generator; verdict + first error vs Pipeline.v (all pass models sequenced) on the real MIR"}
 
 
 STAGES = [  # (error kind prefix, pipeline stage, property whose pass it is)
-    ("dup_", 1, "C14"), ("enum_", 2, "C15"), ("byte_order", 3, "C11"), ("ref_unknown", 4, "C14"), ("reset_", 5, "C08"),
+    ("dup_", 1, "C14"), ("enum_", 2, "C15"), ("byte_order", 3, "C11"), ("ref_unknown", 4, "C14"), ("ref_recursive", 4, "C14"), ("reset_", 5, "C08"),
     ("bool_", 6, "C11"), ("field_", 7, "C11"), ("no_address_type", 8, "C13"), ("address_too_", 9, "C13"),
     ("device_name", 10, "C14"), ("address_overlap", 11, "C12")]
 
